@@ -272,6 +272,10 @@ func (in *Interp) callFunction(fn *ssa.Function, args []Value, bind []Value) (re
 			}
 		}
 		if !inside {
+			// a stub for a method of an unexported receiver type may omit the receiver
+			if fn.Signature.Recv() != nil && len(args) == len(r.Params)+1 {
+				args = args[1:]
+			}
 			fn = r
 		}
 	}
